@@ -53,6 +53,9 @@ FOREIGN_HOME_MODULES = set()     # top-level module names of the package (filled
 FOREIGN_FUNCS = {}    # module-level functions of top-level package modules, likewise (callers import them by name)
 FOREIGN = {}          # method name -> FunctionDef: methods of package classes (defined once in the whole package, not known to the rule tables,
                       # touching only their own object) that callers in other classes / modules may have inlined
+ATTR_FOREIGN = set()  # attribute names read or written on something other than the `self` of the enclosing method (or named in a string)
+ATTR_SELF = {}        # attribute name -> {(module, class, bound in that class's __init__)}: where it is used as `self.name`
+ATTR_MODULES = {}     # attribute name -> set of modules in which `<expr>.name` occurs (filled by build_foreign)
 STATICS = {}          # (class name, method name) -> FunctionDef: static methods, unknown to the rule tables, of classes defined once (called as `K.m(..)`; filled by build_foreign)
 NULLNESS = None       # sa.nullness.Nullness of the package (never-None facts about results, private parameters, queue elements), set by the loader
 PURE_PROPS = {}       # property name -> (name of self, returned expression): read-only properties unknown to the rule tables whose name is defined once in the package (filled by build_foreign)
@@ -175,6 +178,35 @@ def build_foreign(trees, known):
                 out[m.name] = m
     _build_records(trees, known)
     _build_pure_props(trees, known)
+    ATTR_MODULES.clear()
+    ATTR_FOREIGN.clear()
+    ATTR_SELF.clear()
+    for modname, t in trees.items():
+        for n in ast.walk(t):
+            if isinstance(n, ast.Attribute):
+                ATTR_MODULES.setdefault(n.attr, set()).add(modname)
+            elif isinstance(n, ast.Constant) and isinstance(n.value, str) and n.value.isidentifier():
+                ATTR_MODULES.setdefault(n.value, set()).add("*")          # getattr(x, "name") and friends
+                ATTR_FOREIGN.add(n.value)
+        selfuse = set()
+        for c in [x for x in t.body if isinstance(x, ast.ClassDef)]:
+            inits = set()
+            for m in c.body:
+                if isinstance(m, (ast.FunctionDef, ast.AsyncFunctionDef)) and m.args.args and not any(_dec(d) == "staticmethod" for d in m.decorator_list):
+                    sn = m.args.args[0].arg
+                    for n in ast.walk(m):
+                        if isinstance(n, ast.Attribute) and isinstance(n.value, ast.Name) and n.value.id == sn:
+                            selfuse.add(id(n))
+                            if m.name == "__init__" and isinstance(n.ctx, ast.Store):
+                                inits.add(n.attr)
+            for m in c.body:
+                if isinstance(m, (ast.FunctionDef, ast.AsyncFunctionDef)):
+                    for n in ast.walk(m):
+                        if isinstance(n, ast.Attribute) and id(n) in selfuse:
+                            ATTR_SELF.setdefault(n.attr, set()).add((modname, c.name, n.attr in inits))
+        for n in ast.walk(t):
+            if isinstance(n, ast.Attribute) and id(n) not in selfuse:
+                ATTR_FOREIGN.add(n.attr)
     STATICS.clear()
     ccount = {}
     for t in trees.values():
@@ -1352,7 +1384,7 @@ class FuncCanon(object):
         changed = False
         for blk in _all_blocks(self.fn):
             top = blk is self.fn.body
-            if self.prop(blk) or self.lencomp(blk) or self.star(blk) or self.callsel(blk) or self.tuplepush(blk) or self.sumloop(blk) or self.listcomp(blk) or self.unroll(blk) or self.listbuild(blk) or self.copyinout(blk) or self.copyin(blk) or self.copyprop(blk) or self.flageq(blk) or self.lockwith(blk) or self.flagloop(blk) or self.ifflag(blk) or self.thread(blk) or self.deadstore(blk) or self.kw(blk) or self.split(blk) or self.retsplit(blk) or self.unindex(blk) or self.yieldsplit(blk) or self.forelse(blk) or self.dowhile(blk) or self.withsink(blk) or self.testsplit(blk) or self.rot(blk) or self.brk(blk, top) or self.wtop(blk) or self.ifs(blk) or self.sink(blk) or self.unpack(blk) or self.fwd(blk):
+            if self.prop(blk) or self.lencomp(blk) or self.star(blk) or self.callsel(blk) or self.tuplepush(blk) or self.sumloop(blk) or self.listcomp(blk) or self.unroll(blk) or self.listbuild(blk) or self.copyinout(blk) or self.copyin(blk) or self.copyprop(blk) or self.lockwith(blk) or self.flagloop(blk) or self.ifflag(blk) or self.flageq(blk) or self.thread(blk) or self.deadstore(blk) or self.kw(blk) or self.split(blk) or self.retsplit(blk) or self.unindex(blk) or self.yieldsplit(blk) or self.forelse(blk) or self.dowhile(blk) or self.withsink(blk) or self.testsplit(blk) or self.rot(blk) or self.brk(blk, top) or self.wtop(blk) or self.ifs(blk) or self.sink(blk) or self.unpack(blk) or self.fwd(blk):
                 return True
         return changed
 
@@ -1728,7 +1760,8 @@ class FuncCanon(object):
                 positive = isinstance(c.ops[0], ast.Is) == na         # `v is None` when the None arm is the body: C itself
                 newt = copy.deepcopy(C) if positive else negate(copy.deepcopy(C))
                 for s_ in blk[i + 1:]:
-                    _replace_node(s_, c, ast.copy_location(newt, c))
+                    if any(x is c for x in ast.walk(s_)):
+                        _replace_node(s_, c, ast.copy_location(newt, c))
             self.bump("FLAGEQ")
             return True
         return False
@@ -3596,6 +3629,11 @@ class Inliner(object):
     def run(self):
         self._run_functions()
         try:
+            if RECORDS and self._flatten_attr_records():
+                self.stats["INLINE"] = self.stats.get("INLINE", 0) + 1
+        except Bail as e:
+            self.log.append("attribute records: %s" % e)
+        try:
             self._module_level()
         except Bail as e:
             self.log.append("module-level inlining: %s" % e)
@@ -3646,6 +3684,18 @@ class Inliner(object):
             if f.id in _params(caller):
                 return None
             return h, False
+        if isinstance(f, ast.Attribute) and isinstance(f.value, ast.Attribute) and isinstance(f.value.value, ast.Name) and cls is not None and RECORDS:
+            # a method of a record object held in `self.X`, X bound by the constructor only, to `K(..)`: the exact class is known
+            cps = _params(caller)
+            cdef = next((st for st in self.tree.body if isinstance(st, ast.ClassDef) and st.name == cls), None)
+            if cps and f.value.value.id == cps[0] and cdef is not None and caller.name != "__init__" \
+                    and not any(isinstance(n, ast.Name) and n.id == cps[0] and isinstance(n.ctx, ast.Store) for n, _ in _fn_nodes(caller)):
+                rec = self._attr_record(cdef, f.value.attr)
+                if rec is not None:
+                    hm = rec[2].get(f.attr)
+                    if hm is not None and f.attr != "__init__" and self._inlinable_def(hm[0]) and (rec[1] == self.modname or self._bindings_available(rec[1], hm[1])):
+                        return hm[0], True
+                    return None
         if isinstance(f, ast.Attribute) and isinstance(f.value, ast.Attribute) and isinstance(f.value.value, ast.Name) and f.attr in FOREIGN and cls is not None:
             # a method of another package class, called on `self.X` where X is bound by the constructor only (the same object throughout)
             cps = _params(caller)
@@ -3697,6 +3747,161 @@ class Inliner(object):
             if cps and not caller_static and f.value.id == cps[0] and not any(isinstance(n, ast.Name) and n.id == cps[0] and isinstance(n.ctx, ast.Store) for n, _ in _fn_nodes(caller)):
                 return h, not static
         return None
+
+    def _attr_record(self, cdef, attr):
+        """RECORDS entry when `self.<attr>` of class cdef is bound by its constructor only, by `self.<attr> = K(..)`, K a record class"""
+        if attr not in _stable_attrs(cdef):
+            return None
+        init = next((m for m in cdef.body if isinstance(m, ast.FunctionDef) and m.name == "__init__"), None)
+        if init is None or not init.args.args:
+            return None
+        selfn = init.args.args[0].arg
+        hits = [st for st in init.body if isinstance(st, ast.Assign) and len(st.targets) == 1 and isinstance(st.targets[0], ast.Attribute) and st.targets[0].attr == attr
+                and isinstance(st.targets[0].value, ast.Name) and st.targets[0].value.id == selfn]
+        stores = [n for n in ast.walk(init) if isinstance(n, ast.Attribute) and n.attr == attr and isinstance(n.ctx, (ast.Store, ast.Del))]
+        if len(hits) != 1 or len(stores) != 1:
+            return None
+        v = hits[0].value
+        if not (isinstance(v, ast.Call) and isinstance(v.func, ast.Name) and v.func.id in RECORDS):
+            return None
+        k = v.func.id
+        rec = RECORDS[k]
+        here = _module_bindings(self.tree).get(k)
+        if (here == ("def", k) and rec[1] == self.modname) or (here == ("from", rec[1].split(".")[-1], k) and rec[1] != self.modname):
+            return rec
+        return None
+
+    def _flatten_attr_records(self):
+        """A record object held in `self.a` (bound by the constructor only, every occurrence of the attribute name in the package is `self.a.<field>`
+        in this class once its methods and read-only properties are inlined) is a bundle of attributes `self.a__<field>`; a property of the class
+        that merely reads (and a setter that merely writes) one of these is that attribute under the property's name."""
+        done = False
+        for cdef in [st for st in self.tree.body if isinstance(st, ast.ClassDef)]:
+            init = next((m for m in cdef.body if isinstance(m, ast.FunctionDef) and m.name == "__init__"), None)
+            if init is None or not init.args.args:
+                continue
+            for a in sorted(_stable_attrs(cdef)):
+                rec = self._attr_record(cdef, a)
+                if rec is None or a in ATTR_FOREIGN or any(not own for (mn, cn, own) in ATTR_SELF.get(a, ()) if (mn, cn) != (self.modname, cdef.name)):
+                    continue          # (the name is used on other objects, or by a class that does not bind it itself - a subclass, say)
+                kdef, home, methods, fields = rec
+                props = getattr(kdef, "_sa_props", {})
+                # every occurrence of `.a` in the module
+                parent = {}
+                for n in ast.walk(self.tree):
+                    for c in ast.iter_child_nodes(n):
+                        parent[id(c)] = n
+                owner = {}
+                for m in cdef.body:
+                    if isinstance(m, (ast.FunctionDef, ast.AsyncFunctionDef)):
+                        for n in ast.walk(m):
+                            owner[id(n)] = m
+                occ = [n for n in ast.walk(self.tree) if isinstance(n, ast.Attribute) and n.attr == a]
+                ok, ctor = True, None
+                for n in occ:
+                    m = owner.get(id(n))
+                    if m is None or not m.args.args or not (isinstance(n.value, ast.Name) and n.value.id == m.args.args[0].arg) or any(_dec(d) == "staticmethod" for d in m.decorator_list):
+                        ok = False
+                        break
+                    if any(isinstance(x, ast.Name) and x.id == m.args.args[0].arg and isinstance(x.ctx, ast.Store) for x in ast.walk(m)):
+                        ok = False
+                        break
+                    p_ = parent.get(id(n))
+                    if isinstance(n.ctx, ast.Store):
+                        if m is init and isinstance(p_, ast.Assign) and len(p_.targets) == 1 and p_.targets[0] is n and any(x is p_ for x in init.body):
+                            ctor = p_
+                            continue
+                        ok = False
+                        break
+                    if not (isinstance(p_, ast.Attribute) and p_.value is n and (p_.attr in fields or (p_.attr in props and isinstance(p_.ctx, ast.Load))) and isinstance(p_.ctx, (ast.Load, ast.Store))):
+                        ok = False
+                        break
+                if not ok or ctor is None:
+                    continue
+                if any(("%s__%s" % (a, f)) in ATTR_MODULES for f in fields):
+                    continue
+                initm, needs = methods["__init__"]
+                if not (home == self.modname or self._bindings_available(home, needs)):
+                    continue
+                # read-only properties of the record
+                for _r in range(4):
+                    hit = False
+                    for n in list(ast.walk(cdef)):
+                        for fld, val in ast.iter_fields(n):
+                            vals = val if isinstance(val, list) else [val]
+                            for k_, c in enumerate(vals):
+                                if isinstance(c, ast.Attribute) and isinstance(c.ctx, ast.Load) and c.attr in props and isinstance(c.value, ast.Attribute) and c.value.attr == a:
+                                    psn, pe = props[c.attr]
+                                    recv = c.value
+
+                                    class RP(ast.NodeTransformer):
+                                        def visit_Name(self, x):
+                                            return ast.copy_location(copy.deepcopy(recv), x) if x.id == psn else x
+                                    newe = ast.copy_location(RP().visit(copy.deepcopy(pe)), c)
+                                    ast.fix_missing_locations(newe)
+                                    if isinstance(val, list):
+                                        val[k_] = newe
+                                    else:
+                                        setattr(n, fld, newe)
+                                    hit = True
+                    if not hit:
+                        break
+                # the construction becomes the body of K.__init__ on `self.a`
+                call = ctor.value
+                fake = ast.copy_location(ast.Call(func=ast.Attribute(value=copy.deepcopy(ctor.targets[0]), attr="__init__", ctx=ast.Load()), args=call.args, keywords=call.keywords), call)
+                fake.func.value.ctx = ast.Load()
+                try:
+                    pre, body, tag, fresh = self._prepare(init, fake, initm, True, False)
+                except Bail as e:
+                    self.log.append("ATTRFLAT skipped %s.%s: %s" % (cdef.name, a, e))
+                    continue
+                i = next(k for k, x in enumerate(init.body) if x is ctor)
+                new = pre + body
+                for x in new:
+                    ast.fix_missing_locations(x)
+                init.body[i:i + 1] = new
+                _fresh_registry(init).update(fresh)
+
+                class R(ast.NodeTransformer):
+                    def visit_Attribute(self, n):
+                        self.generic_visit(n)
+                        if isinstance(n.value, ast.Attribute) and n.value.attr == a and n.attr in fields:
+                            return ast.copy_location(ast.Attribute(value=n.value.value, attr="%s__%s" % (a, n.attr), ctx=n.ctx), n)
+                        return n
+                R().visit(cdef)
+                self.stats["ATTRFLAT"] = self.stats.get("ATTRFLAT", 0) + 1
+                self.log.append("ATTRFLAT: %s.%s of %s" % (cdef.name, a, kdef.name))
+                done = True
+                # alias properties: `@property def p(self): return self.S` (+ `@p.setter def p(self, v): self.S = v`), S one of the new attributes
+                for f in fields:
+                    S = "%s__%s" % (a, f)
+                    for g in [m for m in cdef.body if isinstance(m, ast.FunctionDef) and [_dec(d) for d in m.decorator_list] == ["property"] and len(m.args.args) == 1]:
+                        gb = [b for b in g.body if not (isinstance(b, ast.Expr) and isinstance(b.value, ast.Constant))]
+                        sn = g.args.args[0].arg
+                        if not (len(gb) == 1 and isinstance(gb[0], ast.Return) and isinstance(gb[0].value, ast.Attribute) and gb[0].value.attr == S and isinstance(gb[0].value.value, ast.Name) and gb[0].value.value.id == sn):
+                            continue
+                        pname = g.name
+                        others = [m for m in cdef.body if isinstance(m, (ast.FunctionDef, ast.AsyncFunctionDef)) and m.name == pname and m is not g]
+                        setter = None
+                        good = True
+                        for m in others:
+                            decs = [_dec(d) for d in m.decorator_list]
+                            mb = [b for b in m.body if not (isinstance(b, ast.Expr) and isinstance(b.value, ast.Constant))]
+                            if decs == ["setter"] and isinstance(m.decorator_list[0], ast.Attribute) and isinstance(m.decorator_list[0].value, ast.Name) and m.decorator_list[0].value.id == pname and len(m.args.args) == 2 and len(mb) == 1 and isinstance(mb[0], ast.Assign) and len(mb[0].targets) == 1 \
+                                    and isinstance(mb[0].targets[0], ast.Attribute) and mb[0].targets[0].attr == S and isinstance(mb[0].targets[0].value, ast.Name) and mb[0].targets[0].value.id == m.args.args[0].arg \
+                                    and isinstance(mb[0].value, ast.Name) and mb[0].value.id == m.args.args[1].arg and setter is None:
+                                setter = m
+                            else:
+                                good = False
+                        # the property's name is used on instances of this class only (as an attribute of something), and is no plain attribute of it
+                        if not good or any(isinstance(n, ast.Attribute) and n.attr == pname and isinstance(n.ctx, ast.Store) and isinstance(n.value, ast.Name) and owner.get(id(n)) is init for n in ast.walk(init)):
+                            continue
+                        cdef.body[:] = [m for m in cdef.body if m is not g and m is not setter]
+                        for n in ast.walk(self.tree):
+                            if isinstance(n, ast.Attribute) and n.attr == S:
+                                n.attr = pname
+                        self.log.append("alias property %s.%s is the attribute %s" % (cdef.name, pname, S))
+        return done
 
     def _record_of(self, caller, name):
         """-> RECORDS entry when local `name` of `caller` is bound exactly once, by `name = K(...)` with K a record class"""
